@@ -560,6 +560,24 @@ def _texts(rng, n, prop="C15"):
         elif r < 0.8:
             t = workload.gen_text(rng, 4 if prop == "C15" else 6,
                                   groups=rng.sample(range(12), rng.randint(1, 4)))
+        elif r < 0.8 + 0.03:
+            # a match on which the production *declines* (four digits that are no military
+            # time, "half" of a unit other than hour/day) next to one of the same pattern on
+            # which it succeeds, in both orders
+            dec, acc = rng.choice([
+                (["1013", "0932", "1147", "2017", "1201"], ["1230", "1430", "0800", "2015"]),
+                (["half week", "half a month", "1/2 night", "1/2 week"],
+                 ["half day", "half hour", "half an hour", "1/2 h"])])
+            a, b = rng.choice(dec), rng.choice(acc)
+            t = "%s %s" % ((a, b) if rng.random() < 0.6 else (b, a))
+            if rng.random() < 0.3:
+                t = rng.choice(["tomorrow", "at", "friday"]) + " " + t
+        elif r < 0.84:
+            # two different expressions of the same kind side by side (one pattern matching
+            # twice in one sequence; a production may decline the first and accept the second)
+            g = rng.choice([workload.CLOCKS, workload.DURS, workload.DATES, workload.DOMS,
+                            workload.PODS])
+            t = "%s %s" % (rng.choice(g), rng.choice(g))
         elif r < 0.88:
             # the same sub-expression twice: equal values at different offsets
             a = rng.choice(workload.DURS + workload.CLOCKS + workload.DOMS + workload.PODS
